@@ -4,7 +4,7 @@
    reference call on four DISTINCT objects holding the same operand values (ProofsBase.fresh); Frame: no other
    object of the caller changes.  Ring_alias_free = all 18 operations of the ring interface. *)
 From Coq Require Import ZArith.
-From C15 Require Import Model ProofsBase ProofsMr ProofsMg ProofsMi ProofsInt ProofsOld.
+From C15 Require Import Model ModelPoly ProofsBase ProofsMr ProofsMg ProofsMi ProofsInt ProofsOld ProofsPoly.
 Local Open Scope Z_scope.
 
 Theorem C15_modular_ruint_alias_free : forall W p same, Ring_alias_free (mr_op W p same).
@@ -86,3 +86,25 @@ Theorem C15_old_integer_powmod_refuted :
     exec (Int_powmod_old (U res) (U n) e (U m)) h (U res) <> powmod_spec (h (U n)) e (h (U m)).
 Proof. exact powmod_old_refuted. Qed.
 Print Assumptions C15_old_integer_powmod_refuted.
+(* ---- Poly1Dom<Domain,Dense> entry points (ModelPoly.v): guards, temporaries and assignment order keep every
+        hazardous coefficient loop unreachable, for every alias pattern *)
+Theorem C15_poly_alias_free : forall p, Poly_alias_free p.
+Proof. exact poly_alias_free. Qed.
+Print Assumptions C15_poly_alias_free.
+Theorem C15_poly_mul_never_junk : Poly_mul_never_junk.
+Proof. exact poly_mul_never_junk. Qed.
+Print Assumptions C15_poly_mul_never_junk.
+Theorem C15_poly_divmod_alias_free : Poly_divmod_alias_free.
+Proof. exact poly_divmod_alias_free. Qed.
+Print Assumptions C15_poly_divmod_alias_free.
+Theorem C15_poly_gcd_alias_free : Poly_gcd_alias_free.
+Proof. exact poly_gcd_alias_free. Qed.
+Print Assumptions C15_poly_gcd_alias_free.
+Theorem C15_poly_mul_unguarded_refuted : ~ Pure_destP (fun r a b _ => P_mul_unguarded 101 r a b).
+Proof. exact poly_mul_unguarded_refuted. Qed.
+Print Assumptions C15_poly_mul_unguarded_refuted.
+Theorem C15_poly_gcd_swapped_refuted :
+  exists (h : pstore) (g a b : positive),
+    pexec (P_gcd_swapped 101 (U g) (U a) (U b)) h (U g) <> gcd_val 101 (h (U a)) (h (U b)).
+Proof. exact poly_gcd_swapped_refuted. Qed.
+Print Assumptions C15_poly_gcd_swapped_refuted.
